@@ -111,7 +111,7 @@ PROPS["C09"] = vec_prop("The first 22680 run indices enumerate {=,+=,-=,construc
     [{"engine": "vecsim", "config": "asan", "runs": 50000, "deadline": 70}, {"engine": "vecsim", "config": "asan-avx", "runs": 30000, "deadline": 50}],
     [{"engine": "vecsim", "config": "asan", "runs": 1500000, "deadline": 900}, {"engine": "vecsim", "config": "asan-avx", "runs": 1000000, "deadline": 600},
      {"engine": "vecsim", "config": "plain", "runs": 4000000, "base": 1500000, "deadline": 400}])
-PROPS["C14"] = vec_prop("The first run indices enumerate the bounded table of argument faults (20 ordered dimension pairs x 13 binary entry points (incl. evolution of an expression by a mismatched operator; expression entry points with every "
+PROPS["C14"] = vec_prop("The first run indices enumerate the bounded table of argument faults (20 ordered dimension pairs x 14 binary entry points (incl. evolution of an expression by a mismatched operator; expression entry points with every "
                         "lvalue/std::move operand combination) x 2 storage kinds, and the constructor/factory window with every index up to d*d+2); later indices place argument faults inside random histories (40% of operations).",
     [{"engine": "vecsim", "config": "asan", "runs": 60000, "deadline": 80}],
     [{"engine": "vecsim", "config": "asan", "runs": 1500000, "deadline": 1200}, {"engine": "vecsim", "config": "asan-avx", "runs": 300000, "deadline": 400}],
@@ -169,7 +169,7 @@ PROPS["C15"]["real_vs_stub"] = {"real": VEC_REAL_STUB["real"] + SOL_REAL_STUB["r
 PROPS["C07"] = {
     "level": "exploration",
     "rule": ("plans are generated from (VERIF_SEED, run index): a history of 1-12 calls on one simulated thread, each matrix_exponential(A) (75%) or a.UTransform(V,i*s) (25%), "
-             "n = 2..6, matrix class in {anti-Hermitian, negative semi-definite Hermitian, normal, general dense, diagonal, nilpotent, nearly diagonal, indefinite Hermitian}, "
+             "n = 2..6, matrix class in {anti-Hermitian, negative semi-definite Hermitian, normal, general dense, diagonal, nilpotent, nearly diagonal, indefinite Hermitian, i*Laplacian (zero row sums), general zero-row-sum}, "
              "1-norm placed at 0.5/0.9/0.99/1.01/1.1/2 times each Pade threshold (55%) or log-uniform in 1e-6..1e3 (capped at 50 for non-normal classes); the estimator's random "
              "bits come from the plan (uniform, or runs of identical bits of length <=64); allocator reuse policy and fill pattern per run. Oracles: error against exp(A) in "
              "__float128 within 2e3*n*u*(1+|A|_F)*exp(mu_2(A)); bit-identical result of the same call with the same bits on a fresh thread; UTransform against the dense formula, "
